@@ -66,7 +66,10 @@ def seeded(ctx, n, length):
                 else:
                     r = rng.choice([0, 4])
                 meters.append({"k": k, "r": r, "ready": not (mode == "notready" and k in bad)})
-            steps.append({"op": "req", "meters": meters})
+            rq = {"op": "req", "meters": meters}
+            if rng.random() < 0.12:
+                rq["lat"] = rng.choice([1, backoff, backoff + 1, 3 * backoff])   # slow backend: time passes during the exchange
+            steps.append(rq)
             steps.append({"op": "adv", "d": rng.choice([0, 1, 1, max(1, backoff // 2), backoff, backoff + 1])})
         out.append({"id": "rnd-%d" % i, "cfg": {"backoff": backoff, "tick_ms": 1000, "table": i}, "steps": [s for s in steps if s.get("d", 1) != 0]})
     return out
